@@ -326,3 +326,20 @@ Proof.
     apply (M pre u post); [exact E|apply lev_script].
   - intros pre' u' post' E'. apply (M pre' u' post'); [exact E'|apply lev_script].
 Qed.
+
+(* ---- distance 0 = containment ---------------------------------------------------------------------------------------- *)
+Lemma script_zero_eq : forall c a b, script c a b -> c = 0 -> a = b.
+Proof.
+  induction 1 as [|x a b c H IH|x y a b c H IH|x a b c H IH|y a b c H IH]; intros E; try (pose proof (script_nonneg _ _ _ H); lia).
+  - reflexivity.
+  - f_equal. apply IH. exact E.
+Qed.
+Lemma script_refl : forall a, script 0 a a.
+Proof. induction a as [|x a IH]; [constructor|apply s_keep; exact IH]. Qed.
+
+Theorem sed_zero_iff_contained t p : sed t p = 0 <-> exists pre post, t = pre ++ p ++ post.
+Proof.
+  destruct (sed_is_min_substring_edit_distance t p) as [(pre & u & post & E & S) M]. split.
+  - intros Z0. rewrite Z0 in S. exists pre, post. rewrite <- (script_zero_eq _ _ _ S eq_refl). exact E.
+  - intros (pre' & post' & E'). apply Z.le_antisymm; [apply (M pre' p post' 0 E' (script_refl p))|apply (script_nonneg _ _ _ S)].
+Qed.
